@@ -338,6 +338,15 @@ theorem sky_contains_eq (w : Wcs Sky α) (r : SkyR Sky α) (q : Sky) :
   | compound op r1 r2 m v ih1 ih2 =>
     simp only [SkyR.contains, ih1, ih2, SkyR.toPixel, PixR.mkCompound, PixR.contains, PixR.toPReg,
       PReg.contains]
+  | point c m v =>
+    simp only [SkyR.contains, SkyR.toPixel, PixR.contains, PixR.toPReg, PReg.contains, metaOr_some,
+      C01.empty_contains_nothing]
+  | line a b m v =>
+    simp only [SkyR.contains, SkyR.toPixel, PixR.contains, PixR.toPReg, PReg.contains, metaOr_some,
+      C01.empty_contains_nothing]
+  | text c t m v =>
+    simp only [SkyR.contains, SkyR.toPixel, PixR.contains, PixR.toPReg, PReg.contains, metaOr_some,
+      C01.empty_contains_nothing]
   | _ => simp only [SkyR.contains]
 
 /-- the include flag acts on a sky region exactly as on its pixel image: complement. -/
@@ -354,6 +363,50 @@ theorem pix_contains_via_sky (w : Wcs Sky α) (hp : ∀ p : Pt α, w.toPix (w.to
   rw [sky_contains_eq, roundtrip_pix_sky_pix_exact w hp hr r, hp]
 
 end field
+
+/-! ### shape of the sky-side answer (scalar / array positions) -/
+
+section shape
+variable {Sky α : Type}
+
+/-- full strength: asked about positions of shape `q`, a sky region answers in the shape `q` — as its
+pixel image does (`C01.resultShape_spec`). -/
+def sky_contains_shape_full : Prop :=
+  ∀ (Sky α : Type) (r : SkyR Sky α) (q : QShape), r.containsShape q = q
+
+/-- refuted on the current tree (finding F203): `PointSkyRegion.contains` returns one bool for an array of
+two positions. -/
+theorem sky_contains_shape_full_refuted : ¬ sky_contains_shape_full := by
+  intro h
+  have := h Unit Unit (.point () Meta.empty Visual.empty) (some [2])
+  simp [SkyR.containsShape] at this
+
+/-- what the current code does, exactly: the shape of the positions when they are scalar or when some
+component answers through the pixel image; one scalar otherwise. -/
+theorem sky_contains_shape (r : SkyR Sky α) (q : QShape) :
+    r.containsShape q = if r.hasSized then q else none := by
+  induction r with
+  | compound op a b m v iha ihb =>
+    simp only [SkyR.containsShape, SkyR.hasSized, iha, ihb]
+    by_cases ha : a.hasSized = true <;> by_cases hb : b.hasSized = true <;> cases q <;> simp [ha, hb]
+  | _ => simp [SkyR.containsShape, SkyR.hasSized]
+
+/-- partial: the decidable predicate that excludes exactly the failing input class — array positions
+asked of an expression built only from point / line / text regions. -/
+theorem sky_contains_shape_partial (r : SkyR Sky α) (q : QShape) (h : q = none ∨ r.hasSized = true) :
+    r.containsShape q = q := by
+  rw [sky_contains_shape]
+  rcases h with h | h
+  · subst h; cases r.hasSized <;> rfl
+  · simp [h]
+
+example : (none : QShape) = none ∨ (SkyR.point () Meta.empty (Visual.empty : Visual Unit)).hasSized = true :=
+  Or.inl rfl
+example : (some [2] : QShape) = none ∨
+    (SkyR.compound .or (.point () Meta.empty (Visual.empty : Visual ℚ)) (.circle () 1 Meta.empty Visual.empty)
+      Meta.empty Visual.empty).hasSized = true := Or.inr rfl
+
+end shape
 
 /-! ### the full-strength meta / visual clauses (F2 fixed: they hold) -/
 
